@@ -25,7 +25,8 @@ pub fn check(c: &Case) -> CheckResult {
 }
 
 pub fn strategy() -> impl Strategy<Value = Case> {
-    any::<bool>().prop_flat_map(|storage| gb::hostile(storage).prop_map(move |buf| Case { buf, storage }))
+    any::<bool>()
+        .prop_flat_map(|storage| gb::hostile(storage).prop_map(move |buf| Case { buf, storage }))
 }
 
 pub fn run(run: &Run) {
@@ -37,7 +38,13 @@ pub fn run(run: &Run) {
     );
     run.assume("inputs whose re-serialisation has a different length than declared (strings cut at a NUL, invalid UTF-8, left-over payload bytes, dropped network-trace arguments) are outside the statement's precondition and only counted");
     run.regressions(&replay);
-    run.random("fixpoint", run.cases(400_000, 8_000_000), 0.08, strategy, check);
+    run.random(
+        "fixpoint",
+        run.cases(400_000, 8_000_000),
+        0.08,
+        strategy,
+        check,
+    );
 }
 
 pub fn replay(section: &str, case: &Json) -> Option<CheckResult> {
